@@ -16,6 +16,7 @@ class FuncCtx:
   def __init__(self, f):
     self.f = f
     self.g = cfgmod.CFG(f.node)
+    self.g._funcinfo = f
     self.rd = dataflow.Reaching(self.g)
     self.stmt_of = {}
     for n in self.g.nodes:
